@@ -143,6 +143,7 @@ class C02(vlib.Driver):
     # ------------------------------------------------------------------ generation
     def generate(self, tier, rng):
         cases = []
+        only = os.environ.get("VERIF_C02_ONLY")      # developer shortcut for the mutation self-test (never registered)
 
         def train_all(n, rng, act=True):
             return [["train", i, rng.randrange(1000), bool(act)] for i in range(n)]
@@ -220,15 +221,21 @@ class C02(vlib.Driver):
             counts are pinned (min = max = current), so that add_layer / remove_layer / change_kernel take their fall-back
             paths (add_node / add_channel with randomly drawn arguments that only travel through the returned dictionary)"""
             cfg = None
-            if kind == "fallback":
-                mlp = {"hidden_size": [8, 8], "min_hidden_layers": 2, "max_hidden_layers": 2, "min_mlp_nodes": 4, "max_mlp_nodes": 500}
+            if kind in ("atmax", "atmin"):
+                # layer counts sit AT their limit: add_layer (atmax) / remove_layer (atmin) take the fall-back add_node,
+                # CNN add_layer falls back on add_channel, change_kernel of a one-layer CNN on add_layer
+                hs = [16, 16] if kind == "atmax" else [16]
+                mlp = {"hidden_size": hs, "min_hidden_layers": 1, "max_hidden_layers": 2, "min_mlp_nodes": 4, "max_mlp_nodes": 500}
+                cnn = {"channel_size": [2] * len(hs), "kernel_size": [3] * len(hs), "stride_size": [1] * len(hs), "min_hidden_layers": 1,
+                       "max_hidden_layers": 2, "min_channel_size": 1, "max_channel_size": 64}
                 if family in ("vector", "discrete"):
                     enc = dict(mlp)
                 elif family == "image":
-                    enc = {"channel_size": [2], "kernel_size": [3], "stride_size": [1], "min_hidden_layers": 1, "max_hidden_layers": 1,
-                           "min_channel_size": 1, "max_channel_size": 64}
+                    enc = dict(cnn)
                 else:
-                    enc = {"latent_dim": 16, "min_latent_dim": 8, "max_latent_dim": 64, "vector_space_mlp": True}
+                    enc = {"latent_dim": 16, "min_latent_dim": 8, "max_latent_dim": 64, "vector_space_mlp": True,
+                           "cnn_config": {k: v for k, v in cnn.items() if k in ("channel_size", "kernel_size", "stride_size")},
+                           "mlp_config": {"hidden_size": [16]}}
                 cfg = {"latent_dim": 32, "encoder_config": enc, "head_config": dict(mlp)}
             c = {"algo": algo, "family": family, "share": share, "netcfg": "none" if cfg is None else "methods-" + kind, "seed": seed,
                  "pop": pop, "ops": [["all_methods", seed]]}
@@ -239,16 +246,24 @@ class C02(vlib.Driver):
         METHOD_ALGOS = [("DQN", False), ("RainbowDQN", False), ("TD3", False), ("TD3", True), ("PPO", False), ("NeuralTS", False),
                         ("MATD3", False), ("IPPO", False)]
         OBS_FAMILIES = ["vector", "image", "dictimg", "discrete"]
+        QUICK_DEFAULT = {"DQN": ["vector", "discrete"], "RainbowDQN": OBS_FAMILIES, "TD3": OBS_FAMILIES, "PPO": ["vector", "dictimg", "discrete"],
+                         "NeuralTS": ["vector", "image"], "MATD3": ["vector", "dictimg"], "IPPO": ["vector", "image"]}
+        QUICK_ATMAX = {"DQN": ["vector"], "RainbowDQN": ["vector", "image"], "TD3": ["vector", "image", "dictimg"], "PPO": ["vector", "dictimg"],
+                       "NeuralTS": ["vector"], "MATD3": ["vector"], "IPPO": ["vector"]}
+        QUICK_ATMIN = {"TD3": ["vector", "image"], "PPO": ["vector"], "MATD3": ["vector"]}
         for algo, share in METHOD_ALGOS:
             for fam in OBS_FAMILIES + ([] if tier == "quick" else ["dict"]):
                 if algo in evo.BANDIT and fam == "discrete":
                     continue
                 if only and only not in ("methods", algo):
                     continue
-                if tier != "quick" or not share or fam == "vector":
+                q = tier == "quick"
+                if not q or (fam in QUICK_DEFAULT.get(algo, []) and not share) or (share and fam == "vector"):
                     cases.append(methods(algo, fam, share, "default", 1))
-                if tier != "quick" or fam == "vector" or (algo in ("RainbowDQN", "TD3", "PPO", "MATD3") and not share and fam in ("image", "dictimg")):
-                    cases.append(methods(algo, fam, share, "fallback", 2, pop=2))
+                if not q or (fam in QUICK_ATMAX.get(algo, []) and not share) or (share and fam == "vector"):
+                    cases.append(methods(algo, fam, share, "atmax", 2))
+                if not q or (fam in QUICK_ATMIN.get(algo, []) and not share):
+                    cases.append(methods(algo, fam, share, "atmin", 3))
         if only == "methods":
             cases = [c for c in cases if c["ops"] and c["ops"][0][0] == "all_methods"]
             self._precompute(cases)
@@ -817,7 +832,8 @@ def _layers_sig(obj):
     parts = []
     for m in evo._modules_of(obj):
         m = getattr(m, "_orig_mod", m)
-        parts.append([(n, type(sub).__name__) for n, sub in m.named_modules()])
+        import torch
+        parts.append([(n, type(sub).__name__) for n, sub in torch.nn.Module.named_modules(m)])
     return hashlib.sha1(json.dumps(parts).encode()).hexdigest()[:12]
 
 
@@ -843,7 +859,7 @@ def _probe_call(m, seed):
         asp = getattr(m, "action_space", None)
         dim = int(np.prod(asp.shape)) if asp is not None and getattr(asp, "shape", None) else 2
         args.append(torch.rand((2, dim), generator=g))
-    flags = [(sub, sub.training) for sub in m.modules()]
+    flags = [(sub, sub.training) for sub in torch.nn.Module.modules(m)]
     try:
         m.eval()
         torch.manual_seed(int(seed) + 99)
